@@ -1,7 +1,7 @@
 (* C04 — Links and monitors: exactly one notification when the target goes away.
    Property theorems only; proofs live in Rel/. *)
 From Coq Require Import Permutation.
-From Ergo Require Import Common.Base Rel.Amap Rel.Model Rel.TMProofs Rel.RegProofs Rel.RaceProofs Rel.Cases.
+From Ergo Require Import Common.Base Rel.Amap Rel.Model Rel.TMProofs Rel.RegProofs Rel.AgreeProofs Rel.RaceProofs Rel.Cases.
 Local Open Scope N_scope.
 
 (* Every method of the concrete target manager (relations map + per-target index) refines the
@@ -43,16 +43,73 @@ Proof.
 Qed.
 Print Assumptions C04_sequential.
 
-(* which drains a termination performs: the pid, the registered name, every alias and every event
-   of the process record, each preceded by the delete of its table entry (program order) *)
+(* which steps a termination performs, in program order (unregisterProcess after commit caf4a93): the
+   process-table delete, the CompareAndDelete of the registered name, the drain of the pid,
+   CleanupConsumer, the drain of the name, then delete + drain of every alias and every event of
+   the process record *)
 Theorem C04_terminate_program : forall p pr r,
   term_prog_of p pr r =
-  TDelProc p :: TDrain (TPid p) r :: TCleanCons p ::
-  (match pr_name pr with Some n => [TDelName n; TDrain (TName n me) r] | None => [] end) ++
+  TDelProc p ::
+  (match pr_name pr with Some n => [TDelName n p] | None => [] end) ++
+  TDrain (TPid p) r :: TCleanCons p ::
+  (match pr_name pr with Some n => [TDrain (TName n me) r] | None => [] end) ++
   flat_map (fun a => [TDelAlias a; TDrain (TAlias me a) r]) (pr_aliases pr) ++
   flat_map (fun e => [TDelEvent e; TDrain (TEvent e me) r]) (pr_events pr).
 Proof. reflexivity. Qed.
 Print Assumptions C04_terminate_program.
+
+(* History level, record free.  After ANY history of complete operations (process ids not wrapping
+   2^64), one more operation o of any kind puts into the mailbox of every process c exactly
+   [expected o s c x] more copies of every note x, where the specification [expected] is computed
+   from the node TABLES and the relation set only (C04_expected_spec): one copy iff the target named
+   by x goes away in o with the reason carried by x, c holds that relation (link for an exit, monitor
+   for a down) in the state before o, c is alive and is not the process terminating in o; zero
+   otherwise - no relation, relation removed beforehand, other target, other reason, operation that
+   makes nothing go away.  Which targets go away when p terminates is read from the tables
+   (C04_gone_terminate_spec), not from p's record: that the record leads unregisterProcess to drain
+   exactly those is the agreement invariant (C06_agreement_hist). *)
+Theorem C04_sequential_hist : forall ops nextpid uniq o c x,
+  nextpid + N.of_nat (length ops) < two64 ->
+  let s := fst (run_ops ops (st0 nextpid uniq)) in
+  cnt x c (fst (exec o s)) = (cnt x c s + expected o s c x)%nat.
+Proof.
+  intros ops nextpid uniq o c x NW s. apply exec_cnt.
+  - apply run_ops_agree; [apply agree_st0 | exact NW].
+  - apply run_ops_idx_ok, idx_ok_empty.
+Qed.
+Print Assumptions C04_sequential_hist.
+
+(* the whole mailbox after a history: for every note exactly the copies prescribed over the history *)
+Theorem C04_history_total : forall ops nextpid uniq c x,
+  nextpid + N.of_nat (length ops) < two64 ->
+  cnt x c (fst (run_ops ops (st0 nextpid uniq))) = expected_total ops (st0 nextpid uniq) c x.
+Proof.
+  intros ops nextpid uniq c x NW.
+  rewrite (run_ops_cnt ops (st0 nextpid uniq) c x (agree_st0 _ _) idx_ok_empty NW). reflexivity.
+Qed.
+Print Assumptions C04_history_total.
+
+Theorem C04_expected_spec : forall o s c x,
+  (expected o s c x = 1%nat <->
+     In (n_target x, n_reason x) (gone o s) /\ In (mkkey c (n_target x) (n_down x)) (rels (s_tm s)) /\
+     live c s = true /\ victim o s <> Some c) /\
+  (expected o s c x = 1%nat \/ expected o s c x = 0%nat).
+Proof. exact expected_spec. Qed.
+Print Assumptions C04_expected_spec.
+
+Theorem C04_gone_terminate_spec : forall ops nextpid uniq p r t r',
+  nextpid + N.of_nat (length ops) < two64 ->
+  let s := fst (run_ops ops (st0 nextpid uniq)) in
+  (In (t, r') (gone_terminate p r s) <->
+   live p s = true /\ r' = r /\
+   (t = TPid p \/ (exists n, t = TName n me /\ aget N.eq_dec n (s_names s) = Some p) \/
+    (exists a, t = TAlias me a /\ aget N.eq_dec a (s_aliases s) = Some p) \/
+    (exists e, t = TEvent e me /\ aget N.eq_dec e (s_events s) = Some p))).
+Proof.
+  intros ops nextpid uniq p r t r' NW s. apply gone_terminate_spec.
+  apply run_ops_agree; [apply agree_st0 | exact NW].
+Qed.
+Print Assumptions C04_gone_terminate_spec.
 
 (* The race: one link/monitor request (its atomic steps: existence load, relation insert, re-check,
    undo) on a local target by a live process other than p, against unregisterProcess(p, r) (its
@@ -87,4 +144,16 @@ Example C04_example :
   let c := run [true; false; false; true; true; true; false; false; false]
                (race_cfg s (mkkey (lpid 1002) (TPid (lpid 1001)) false) (lpid 1001) r_kill) in
   finished c = true /\ l_result (c_link c) = RErr e_process_unknown /\ inbox_of (lpid 1002) (c_st c) = [].
+Proof. vm_compute. repeat split; reflexivity. Qed.
+
+(* non-vacuity of the history-level statement: over the history of C04_example the specification
+   prescribes exactly one exit for the pid link and one down for the name monitor of 1002, none
+   for a third party, and that is what the mailboxes hold *)
+Example C04_hist_example :
+  let ops := [OSpawnNode (Some 5); OSpawnNode None; OSpawnNode None; OLink (lpid 1002) (TPid (lpid 1001));
+              OMonitor (lpid 1002) (TName 5 me); OTerminate (lpid 1001) r_kill] in
+  expected_total ops (st0 1000 0) (lpid 1002) (mknote false (TPid (lpid 1001)) r_kill) = 1%nat /\
+  expected_total ops (st0 1000 0) (lpid 1002) (mknote true (TName 5 me) r_kill) = 1%nat /\
+  expected_total ops (st0 1000 0) (lpid 1003) (mknote false (TPid (lpid 1001)) r_kill) = 0%nat /\
+  expected_total ops (st0 1000 0) (lpid 1002) (mknote true (TPid (lpid 1001)) r_kill) = 0%nat.
 Proof. vm_compute. repeat split; reflexivity. Qed.
